@@ -148,4 +148,36 @@ pub proof fn lemma_bitlen_lower(x: nat)
     }
 }
 
+
+// ---- signed integers (BInt) as far as relations::try_factor needs them
+
+pub assume_specification<const N: usize> [ BInt::<N>::from_bits ] (x: BUint<N>) -> (r: BInt<N>)
+    ensures uv(x) < pow_w(N as nat) / 2 ==> iv(r) == uv(x) as int;
+
+pub assume_specification<const N: usize> [ BInt::<N>::to_bits ] (x: BInt<N>) -> (r: BUint<N>)
+    ensures iv(x) >= 0 ==> uv(r) == iv(x) as nat;
+
+/// num_integer::Integer::gcd on bnum signed integers: the (non-negative) gcd of the absolute values
+pub assume_specification<const N: usize> [ <BInt<N> as num_integer::Integer>::gcd ] (a: &BInt<N>, b: &BInt<N>) -> (r: BInt<N>)
+    ensures iv(*a) >= 0 && iv(*b) >= 0 ==> iv(r) == super::numint::gcd_spec(iv(*a) as nat, iv(*b) as nat) as int;
+
+pub assume_specification<const N: usize> [ <BInt<N> as num_traits::One>::one ] () -> (r: BInt<N>)
+    ensures N >= 1 ==> iv(r) == 1;
+
+#[verifier::external_body]
+pub proof fn axiom_bint_cmp<const N: usize>(a: BInt<N>, b: BInt<N>)
+    ensures <BInt<N> as vstd::std_specs::cmp::PartialOrdSpec<BInt<N>>>::obeys_partial_cmp_spec(),
+        a.partial_cmp_spec(&b) == Some(if iv(a) < iv(b) { core::cmp::Ordering::Less } else if iv(a) == iv(b) { core::cmp::Ordering::Equal } else { core::cmp::Ordering::Greater }),
+{}
+
+
+pub proof fn lemma_bitlen_ge2(x: nat)
+    requires x >= 2
+    ensures bitlen(x) >= 2
+{
+    assert(bitlen(x) == 1 + bitlen(x / 2));
+    assert(x / 2 >= 1);
+    assert(bitlen(x / 2) == 1 + bitlen(x / 2 / 2));
+}
+
 } // verus!
